@@ -9,11 +9,10 @@
                              union of theirs, its samples exactly the union of theirs, each once
                        HMark: another visible UNMARKED block contains all sources of the block
                        HDel: the block carries a deletion mark
-     cover_ok st hide sel   the store gateway's selection sel (hide: blocks with a deletion mark
-                     are dropped before the duplicate filter) contains only eligible blocks and
-                     covers the sources of every eligible block - the guarantee of the
-                     duplicate filter (property C31), here a hypothesis that the check
-                     evaluates on every selection made by the real fetcher
+     sg_select st hide   what a store gateway selects: blocks with a deletion mark dropped (hide)
+                     or not, then the duplicate filter of property C31 (Model/C31.v, imported)
+     cover_ok st hide sel   sel contains only eligible blocks and covers the sources of every
+                     eligible block (what C31_hidden_covered guarantees of the filter)
    A crash at any point leaves a prefix of the history; a restart appends further legal
    events: every state a crashing-and-restarting compactor can reach is the end of a prefix
    of a legal history. *)
@@ -21,39 +20,56 @@ From Coq Require Import ZArith NArith List Bool.
 Import ListNotations.
 From Verif Require Import Lib.Corr Gen.C29 Model.C29 Proofs.C29.
 
-(* At every prefix (crash point) of every legal history over any set of original blocks, for
-   either treatment of deletion marks and any covering selection: every sample of every
+(* THE property. At every prefix (crash point) of every legal history over any set of original
+   blocks (any compaction groups, levels, time ranges), what the store gateway's filter chain
+   selects - deletion-mark filter with either treatment of the marks, then the duplicate
+   filter, whose model [C31.hidden] is the one of property C31 (tied to the real
+   DefaultDeduplicateFilter there; here the real fetcher's selections are compared with
+   [sg_select] after every event, corr_ok) - serves every sample of every original block and
+   no other sample. No hypothesis about the filter is left: its guarantee is theorem
+   C31_hidden_covered. *)
+Theorem C29_crash_safe : forall G init hist k hide,
+  NoDup (map fst init) -> legal (init_state G init) hist = true ->
+  let st := fold_left apply_hop (firstn k hist) (init_state G init) in
+  let sel := sg_select st hide in
+  (forall o ss s, In (o, ss) init -> In s ss ->
+     exists id b, In id sel /\ find st id = Some b /\ In s (m_samples b))
+  /\ (forall id b s, In id sel -> find st id = Some b -> In s (m_samples b) ->
+     exists o ss, In (o, ss) init /\ In s ss).
+Proof. exact crash_safe_filter. Qed.
+Print Assumptions C29_crash_safe.
+
+(* The same for ANY selection with the covering property (not only the modelled filter): every sample of every
    original block is in a selected block, and every sample of a selected block is a sample
    of an original block. *)
-Theorem C29_crash_safe : forall init hist k hide sel,
-  NoDup (map fst init) -> legal (init_state init) hist = true ->
-  let st := fold_left apply_hop (firstn k hist) (init_state init) in
+Theorem C29_crash_safe_any_covering_selection : forall G init hist k hide sel,
+  NoDup (map fst init) -> legal (init_state G init) hist = true ->
+  let st := fold_left apply_hop (firstn k hist) (init_state G init) in
   cover_ok st hide sel = true ->
   (forall o ss s, In (o, ss) init -> In s ss ->
      exists id b, In id sel /\ find st id = Some b /\ In s (m_samples b))
   /\ (forall id b s, In id sel -> find st id = Some b -> In s (m_samples b) ->
      exists o ss, In (o, ss) init /\ In s ss).
 Proof. exact crash_safe. Qed.
-Print Assumptions C29_crash_safe.
+Print Assumptions C29_crash_safe_any_covering_selection.
 
 (* Every block that ever exists in a legal history holds exactly the samples of the
    original blocks among its sources (the guard of HAdd - result = union of the parents,
    each sample once - is checked on every real compaction output). *)
-Theorem C29_merge_exact : forall init hist k i b,
-  NoDup (map fst init) -> legal (init_state init) hist = true ->
-  In (i, b) (fold_left apply_hop (firstn k hist) (init_state init)) ->
+Theorem C29_merge_exact : forall G init hist k i b,
+  NoDup (map fst init) -> legal (init_state G init) hist = true ->
+  In (i, b) (fold_left apply_hop (firstn k hist) (init_state G init)) ->
   forall s, In s (m_samples b) <-> exists o ss, In (o, ss) init /\ In o (m_sources b) /\ In s ss.
 Proof. exact merge_exact. Qed.
 Print Assumptions C29_merge_exact.
 
 (* Link to the check: a case is the block-level history the real BucketCompactor produced
    under a crash schedule, with the selections of a real store-gateway fetcher after every
-   event. If the history is legal (corr_ok) and the selections are covering (cover_all, part
-   of pred_ok), then every original sample is served and nothing else is, after every event
-   (served_all, the rest of pred_ok but "exactly once at quiescence"). *)
-Theorem C29_accepted_case_is_safe : forall c,
-  corr_ok c = true -> cover_all c = true -> served_all c = true.
-Proof. exact crash_safe_case. Qed.
+   event. If the history is legal and the selections are the ones the filter model computes
+   (corr_ok), then every original sample is served and nothing else is, after every event
+   (served_all). *)
+Theorem C29_accepted_case_is_safe : forall c, corr_ok c = true -> served_all c = true.
+Proof. exact corr_served. Qed.
 Print Assumptions C29_accepted_case_is_safe.
 
 (* Exactly once. When the original blocks share no sample, at every prefix of every legal
@@ -65,10 +81,10 @@ Print Assumptions C29_accepted_case_is_safe.
    partial: for overlapping original blocks (vertical compaction) "exactly once after
    compaction finished" is not proved (it needs the planner, C30); it is evaluated on the
    final selection of every quiescent run (pred_ok / once_ok). *)
-Theorem C29_served_once : forall init hist k sel,
+Theorem C29_served_once : forall G init hist k sel,
   NoDup (map fst init) -> (forall o ss, In (o, ss) init -> NoDup ss) -> orig_disjoint init ->
-  legal (init_state init) hist = true ->
-  let st := fold_left apply_hop (firstn k hist) (init_state init) in
+  legal (init_state G init) hist = true ->
+  let st := fold_left apply_hop (firstn k hist) (init_state G init) in
   antichain_ok st sel = true ->
   (forall i j a c s, In i sel -> In j sel -> find st i = Some a -> find st j = Some c ->
      In s (m_samples a) -> In s (m_samples c) -> i = j)
@@ -82,32 +98,90 @@ Print Assumptions C29_served_once.
    C29_accepted_case_is_safe: corr_ok /\ cover_all -> pred_ok for non-overlapping inputs. *)
 Theorem C29_accepted_case_serves_once : forall c,
   corr_ok c = true -> cover_all c = true ->
-  match c with CHist _ init _ _ _ _ => orig_disjoint_b init = true end ->
+  match c with CHist _ _ init _ _ _ _ => orig_disjoint_b init = true | CHistD _ _ _ _ _ _ _ => True end ->
   once_ok c = true.
 Proof. exact once_case. Qed.
 Print Assumptions C29_accepted_case_serves_once.
+
+(* Exactly once, ALSO for overlapping inputs (vertical compaction, identical samples merged
+   once): compaction has finished when the planner finds nothing to merge, i.e. no two served
+   blocks of one compaction group overlap in time ([quiet_ok], evaluated on the real final
+   selection of every quiescent run). At any such state of any legal history a sample is in at
+   most one served block, and once in it (every block's samples lie in its time range; blocks
+   of different groups are built from different streams). With C29_crash_safe: each original
+   sample is served exactly once. *)
+Theorem C29_served_once_when_quiet : forall G init hist k sel,
+  NoDup (map fst init) -> (forall o ss, In (o, ss) init -> NoDup ss) ->
+  init_in_range_b G init = true -> groups_disjoint_b G init = true ->
+  legal (init_state G init) hist = true ->
+  let st := fold_left apply_hop (firstn k hist) (init_state G init) in
+  quiet_ok st sel = true ->
+  (forall i j a c s, In i sel -> In j sel -> find st i = Some a -> find st j = Some c ->
+     In s (m_samples a) -> In s (m_samples c) -> i = j)
+  /\ (forall i a, find st i = Some a -> NoDup (m_samples a)).
+Proof. exact quiet_once. Qed.
+Print Assumptions C29_served_once_when_quiet.
+
+(* ... on the case: corr_ok and the quiescence check give the duplicate-free check. With
+   C29_accepted_case_is_safe, all of pred_ok but its (observed) cover/quiet clauses follows
+   from corr_ok. *)
+Theorem C29_accepted_case_serves_once_when_quiet : forall c,
+  corr_ok c = true -> quiet_all c = true ->
+  match c with CHist _ G init _ _ _ _ => groups_disjoint_b G init = true | CHistD _ _ _ _ _ _ _ => True end ->
+  once_ok c = true.
+Proof. exact once_case_quiet. Qed.
+Print Assumptions C29_accepted_case_serves_once_when_quiet.
+
+(* Replicated streams compacted with deduplication (--deduplication.replica-label, penalty
+   merge function): the result of a compaction is a SUBSET of the parents' samples that keeps
+   every series (legal_dd). partial: at every crash point of every such history the filter
+   chain's selection contains only original samples and at least one sample of every original
+   series - that no TIME RANGE of a series is lost is not stated (it needs the penalty
+   algorithm, property C01); for replicas with identical samples the check additionally
+   demands every result to hold exactly the parents' samples (exact_all) and all of them to be
+   served (Go-side predicate). *)
+Theorem C29_dedup_safe_partial : forall G init hist k hide,
+  NoDup (map fst init) -> legal_dd (init_state G init) hist = true ->
+  let st := fold_left apply_hop (firstn k hist) (init_state G init) in
+  let sel := sg_select st hide in
+  (forall o ss s, In (o, ss) init -> In s ss ->
+     exists id b s', In id sel /\ find st id = Some b /\ In s' (m_samples b) /\ series_of s' = series_of s)
+  /\ (forall id b s, In id sel -> find st id = Some b -> In s (m_samples b) ->
+     exists o ss, In (o, ss) init /\ In s ss).
+Proof. exact dedup_safe. Qed.
+Print Assumptions C29_dedup_safe_partial.
+
+Theorem C29_accepted_dedup_case_is_safe : forall c, corr_ok c = true -> dd_all c = true.
+Proof. exact corr_dd. Qed.
+Print Assumptions C29_accepted_dedup_case_is_safe.
 
 (* ---- non-vacuity: three original blocks are compacted into block 3; the sources are
    marked one after the other and then deleted; the selections are those of the duplicate
    filter. ---- *)
 Definition ex_init : list (N * list sample) :=
   [(0%N, [sm 0 0 1; sm 0 100 2]); (1%N, [sm 0 1000 3]); (2%N, [sm 1 2000 4; sm 0 2100 5])].
+Definition ex_G : list (N * ometa) := [om 0 0 0 1000; om 1 0 1000 2000; om 2 0 2000 3000].
 Definition ex_hist : list hop :=
-  [HAdd 3 (mkcb [0; 1; 2]%N [0; 1; 2]%N [sm 0 0 1; sm 0 100 2; sm 0 1000 3; sm 0 2100 5; sm 1 2000 4]);
+  [HAdd 3 (mkcb [0; 1; 2]%N [0; 1; 2]%N [sm 0 0 1; sm 0 100 2; sm 0 1000 3; sm 0 2100 5; sm 1 2000 4] 0 2 0 3000);
    HMark 0; HMark 1; HMark 2; HDel 1; HDel 0; HDel 2].
 
 Example C29_nonvacuous :
   order_ok = true
-  /\ NoDup (map fst ex_init) /\ legal (init_state ex_init) ex_hist = true
-  /\ cover_ok (fold_left apply_hop (firstn 0 ex_hist) (init_state ex_init)) true [0; 1; 2]%N = true
-  /\ cover_ok (fold_left apply_hop (firstn 1 ex_hist) (init_state ex_init)) true [3]%N = true
-  /\ cover_ok (fold_left apply_hop (firstn 3 ex_hist) (init_state ex_init)) false [3]%N = true
-  /\ cover_ok (fold_left apply_hop (firstn 7 ex_hist) (init_state ex_init)) true [3]%N = true
-  /\ antichain_ok (fold_left apply_hop (firstn 1 ex_hist) (init_state ex_init)) [3]%N = true
-  /\ antichain_ok (init_state ex_init) [0; 1; 2]%N = true
+  /\ NoDup (map fst ex_init) /\ legal (init_state ex_G ex_init) ex_hist = true
+  /\ cover_ok (fold_left apply_hop (firstn 0 ex_hist) (init_state ex_G ex_init)) true [0; 1; 2]%N = true
+  /\ cover_ok (fold_left apply_hop (firstn 1 ex_hist) (init_state ex_G ex_init)) true [3]%N = true
+  /\ cover_ok (fold_left apply_hop (firstn 3 ex_hist) (init_state ex_G ex_init)) false [3]%N = true
+  /\ cover_ok (fold_left apply_hop (firstn 7 ex_hist) (init_state ex_G ex_init)) true [3]%N = true
+  /\ antichain_ok (fold_left apply_hop (firstn 1 ex_hist) (init_state ex_G ex_init)) [3]%N = true
+  /\ antichain_ok (init_state ex_G ex_init) [0; 1; 2]%N = true
   /\ orig_disjoint_b ex_init = true
-  /\ legal (init_state ex_init) [HMark 0] = false      (* retiring a source before the result exists is illegal *)
-  /\ legal (init_state ex_init) [HDel 0] = false.
+  /\ sg_select (fold_left apply_hop (firstn 1 ex_hist) (init_state ex_G ex_init)) true = [3%N]
+  /\ sg_select (fold_left apply_hop (firstn 2 ex_hist) (init_state ex_G ex_init)) false = [3%N]
+  /\ sg_select (init_state ex_G ex_init) true = [0; 1; 2]%N
+  /\ quiet_ok (fold_left apply_hop (firstn 7 ex_hist) (init_state ex_G ex_init)) [3%N] = true
+  /\ init_in_range_b ex_G ex_init = true /\ groups_disjoint_b ex_G ex_init = true
+  /\ legal (init_state ex_G ex_init) [HMark 0] = false      (* retiring a source before the result exists is illegal *)
+  /\ legal (init_state ex_G ex_init) [HDel 0] = false.
 Proof.
   split; [vm_compute; reflexivity|].
   split; [repeat constructor; simpl; intuition discriminate|].
